@@ -142,6 +142,7 @@ def denOf : Gen → IterSpec.Den × Bool
   | .factor base fact init elem _ _ => ({ count := elem, nth := (IterSpec.factor 0 base fact init).nth }, false)
   | .boundary l i r elem _ => (IterSpec.boundary elem l i r, false)
   | .poly grid coeff _ _ => (IterSpec.poly grid coeff, false)
+  | .polyN coeff _ _ => ({ count := 4294967295, nth := fun i => IterSpec.polyAt coeff (i : Rat) }, false)
   | .values text _ _ =>
     let p := parseAll (text.length + 1) text
     (IterSpec.explicit p.1, p.2)
@@ -332,6 +333,44 @@ def step (s : St) (w : List String) : St × String :=
             | none => none
             | some txt => profile grid txt
           addSlot s (g.map fun x => mkSlot x none) true "* ; *"
+  | ["it", "xcreate", h] =>
+    -- extreme / non-finite parameters: a keyword description with an infinite or NaN parameter, a parameter
+    -- beyond the largest double or a span that overflows must be refused; otherwise the model decides
+    match decodeDesc h with
+    | none => (s, "bad-op")
+    | some txt =>
+      if hasCI txt "0x" ∨ hasCI txt "file" then (s, "R unmodelled | C - | I -")
+      else
+        let dblMax : Rat := ((2 ^ 1024 - 2 ^ 971 : Nat) : Rat)
+        let keyword := match (Iter.dropSpace txt).head? with | some c => Iter.isAlpha c | none => false
+        let nonfinite : Bool := keyword && (hasCI txt "inf" || hasCI txt "nan")
+        let big (q : Rat) : Bool := absR q > dblMax
+        let refused : Bool :=
+          if nonfinite then true
+          else match create txt with
+            | none => true
+            | some (.linear base step elem _) => big base || big (step * ((elem - 1 : Nat) : Rat)) || big (base + step * ((elem - 1 : Nat) : Rat))
+            | some (.factor base fact init _ _ _) => big base || big fact || big init
+            | some _ => false
+        let v := if refused then "refused" else "accepted"
+        (s, s!"R {v} | C - | I - | S " ++ (if nonfinite then "refused ; *" else "* ; *"))
+  | ["it", "poly", n, h] =>
+    -- mpt_iterator_poly(desc, array) directly: `none` = an array without data (the polynomial at the element index)
+    let desc : Option (Option (List Char)) := if h = "null" then some none else (decodeDesc h).map some
+    match desc, (if n = "none" then some none else (Dyadic.parseNat n).map some) with
+    | some d, some cnt =>
+      if (d.map unmodelled).getD false ∨ (cnt.getD 0) > 100000 then (s, if (cnt.getD 0) > 100000 then "bad-op" else "R unmodelled | C - | I -")
+      else
+        let g : Option Gen := match cnt with
+          | none => mkPolyN d
+          | some 0 => mkPolyN d
+          | some k =>
+            let grid : List Rat := (List.range k).map fun (i : Nat) => (((i : Int) - 2 : Int) : Rat) / 2
+            match d with
+            | none => some (.poly grid [] 0 none)
+            | some txt => mkPoly txt grid
+        addSlot s (g.map fun x => mkSlot x none) true "* ; *"
+    | _, _ => (s, "bad-op")
   | ["it", "string", t, sp] =>
     let dec (h : String) : Option (Option (List Char)) := if h = "null" then some none else (decodeDesc h).map some
     match dec t, dec sp with
@@ -468,6 +507,17 @@ def step (s : St) (w : List String) : St × String :=
         let rs := match r with | none => "null" | some q => s!"val {fmtNum q exact sl.first}"
         let ss := match sl.cur.value with | none => "null" | some q => s!"val {fmtNum q exact sl.first}"
         (setSlot s k { sl with src := .gen g1 }, s!"R {rs} | C - | I - | S " ++ (if sl.sync then s!"{ss} ; *" else "* ; *"))
+    else if v = "word" then
+      withSel s fun k sl =>
+        match sl.src with
+        | .str it =>
+          if !it.hasValue then (s, "R null | C - | I - | S * ; *")
+          else
+            let (it1, r) := it.word
+            let rs := match r with | .err _ => "noconv" | .ok w => s!"word={hexOf w}"
+            -- spec: the word lies inside the text (memory safety is what the sanitizer run observes)
+            (setSlot s k { sl with src := .str it1, sync := false }, s!"R {rs} | C - | I - | S {rs} ; *")
+        | _ => (s, "bad-op")
     else if v = "svalue" then
       withSel s fun _ sl =>
         match sl.src with
